@@ -7,9 +7,12 @@ import (
 	"strings"
 	"time"
 
+	"github.com/GuanceCloud/platypus/pkg/ast"
 	"github.com/GuanceCloud/platypus/pkg/errchain"
 	"github.com/GuanceCloud/platypus/pkg/parser"
 
+	"verif/mc/internal/drv"
+	"verif/mc/internal/rt"
 	"verif/mc/internal/run"
 )
 
@@ -46,6 +49,17 @@ func c05Parse(src string) (class, msg string, accepted bool) {
 		if nilTree {
 			return "neither-tree-nor-error", "ParsePipeline returned (nil, nil)", false
 		}
+		// "a complete syntax tree": a text on which the lexer reports an error is not a program,
+		// and the tree must reach the last significant token of the text
+		lastTok, lexErr := c05LastToken(src)
+		if lexErr != "" {
+			return "accepted-despite-lexical-error", "the text is accepted although the lexer reports: " + lexErr, true
+		}
+		if tree, cerr := drv.FromAst(stmts.(ast.Stmts)); cerr == nil && lastTok >= 0 {
+			if mp := maxPos(tree, src); mp < lastTok {
+				return "tree-does-not-cover-the-text", fmt.Sprintf("accepted, but the tree's last position is %d while the last token starts at %d: part of the text was dropped", mp, lastTok), true
+			}
+		}
 		return "", "", true
 	}
 	pe, ok := err.(*errchain.PlError)
@@ -67,6 +81,91 @@ func c05Parse(src string) (class, msg string, accepted bool) {
 		return "error-lncol-inconsistent", fmt.Sprintf("offset %d rendered %d:%d, it is %d:%d", p.Pos, p.Ln, p.Col, ln, col), false
 	}
 	return "", "", false
+}
+
+// c05LastToken: start offset of the last token that is not a separator or
+// comment (-1 if none), and the lexer's error message if it reports one.
+func c05LastToken(src string) (int, string) {
+	l := parser.Lex(src)
+	last := -1
+	for n := 0; n <= len(src)+2; n++ {
+		var it parser.Item
+		l.NextItem(&it)
+		switch it.Typ {
+		case parser.ERROR:
+			return last, it.Val
+		case parser.EOF:
+			return last, ""
+		case parser.EOL, parser.SEMICOLON, parser.COMMENT, parser.SPACE:
+		default:
+			last = int(it.Pos)
+		}
+	}
+	return last, ""
+}
+
+// maxPos: the largest offset recorded anywhere in a converted tree. A numeric
+// literal with folded signs (`- -5`) records the position of its first sign;
+// its number token is located through the lexer.
+func maxPos(prog []*rt.Node, src string) int {
+	numberAt := map[int]int{} // offset of a sign run -> offset of the number token ending it
+	{
+		l := parser.Lex(src)
+		var runStart []int
+		for n := 0; n <= len(src)+2; n++ {
+			var it parser.Item
+			l.NextItem(&it)
+			if it.Typ == parser.ERROR || it.Typ == parser.EOF {
+				break
+			}
+			switch it.Typ {
+			case parser.ADD, parser.SUB:
+				runStart = append(runStart, int(it.Pos))
+			case parser.NUMBER:
+				for _, p := range runStart {
+					numberAt[p] = int(it.Pos)
+				}
+				runStart = nil
+			default:
+				runStart = nil
+			}
+		}
+	}
+	m := -1
+	var walk func(n *rt.Node)
+	walk = func(n *rt.Node) {
+		if n == nil {
+			return
+		}
+		start := n.Start
+		if n.K == rt.KInt || n.K == rt.KFloat {
+			if p, ok := numberAt[start]; ok {
+				start = p
+			}
+		}
+		for _, p := range []int{start, n.OpPos, n.L, n.R} {
+			if p > m {
+				m = p
+			}
+		}
+		for _, p := range n.Ls {
+			if p > m {
+				m = p
+			}
+		}
+		for _, p := range n.Rs {
+			if p > m {
+				m = p
+			}
+		}
+		for _, k := range n.Kids {
+			walk(k)
+		}
+	}
+	for _, n := range prog {
+		walk(n)
+	}
+	return m
 }
 
 // c05Lex checks the token-tiling property of the exported lexer.
